@@ -107,7 +107,11 @@ def decide(q, timeout_s, smtdir):
     path = os.path.join(smtdir, re.sub(r"[^A-Za-z0-9_.-]", "_", q["name"]) + ".smt2")
     open(path, "w").write(smt2)
     t1 = time.time()
-    rc = run_external(smt2, ["cvc5", "--lang", "smt2", f"--tlimit={timeout_s * 1000}"], timeout_s + 5)
+    # cvc5: its integer encoding of the bit-vector semantics first (--solve-bv-as-int=sum decides the
+    # add/sub chains of unrolled loops quickly), plain bit-blasting as the fallback
+    rc = run_external(smt2, ["cvc5", "--lang", "smt2", "--solve-bv-as-int=sum", "--tlimit=20000"], 25)
+    if rc not in ("sat", "unsat"):
+        rc = run_external(smt2, ["cvc5", "--lang", "smt2", f"--tlimit={timeout_s * 1000}"], timeout_s + 5)
     tc = time.time() - t1
     t2 = time.time()
     ro = run_external(smt2, ["/usr/bin/z3", "-in", f"-T:{timeout_s}"], timeout_s + 5)
